@@ -61,6 +61,18 @@ def directed(rng, tier, idents):
     items.append({"id": "rec", "module": m,
                   "script": [inst()] + [{"op": "call", "inst": 1, "export": "fac", "args": [arg("i64", n)]} for n in (0, 1, 5, 20, 25)] +
                             [{"op": "call", "inst": 1, "export": e, "args": [arg("i32", n)]} for e in ("even", "odd") for n in (0, 1, 7, 12)]})
+    # (b2) re-entrancy: N operands that depend on the argument are pending below a recursive call (direct and mutual);
+    #      each activation must find its own operands when the callee returns
+    for N in ((3, 30) if tier == "quick" else (1, 3, 12, 24, 25, 30, 60)):
+        def deep(callee):
+            return [["local.get", 0], ["i32.eqz"], ["if", "i32"], ["i32.const", b32(1)], ["else"]] + \
+                   [x for k in range(N) for x in (["local.get", 0], ["i32.const", b32(k * k + 1)], ["i32.mul"])] + \
+                   [["local.get", 0], ["i32.const", b32(1)], ["i32.sub"], ["call", callee]] + [["i32.add"]] * N + [["end"], ["end"]]
+        m = {"types": [{"p": ["i32"], "r": ["i32"]}],
+             "funcs": [{"type": 0, "locals": [], "body": deep(0)}, {"type": 0, "locals": [], "body": deep(2)}, {"type": 0, "locals": [], "body": deep(1)}],
+             "exports": [{"name": "deep", "kind": "func", "idx": 0}, {"name": "ping", "kind": "func", "idx": 1}, {"name": "pong", "kind": "func", "idx": 2}]}
+        items.append({"id": "reent%d" % N, "module": m,
+                      "script": [inst()] + [{"op": "call", "inst": 1, "export": e, "args": [arg("i32", n)]} for e in ("deep", "ping") for n in (0, 1, 2, 5)]})
     # (c) call_indirect with a dynamic index; defined and imported table; element segments with constant and
     #     imported-global offsets; several segments, a later one overwriting an earlier slot; imported function in the table
     for tabk in ("defined", "imported"):
@@ -164,9 +176,17 @@ def main():
         # 1. injectivity of the identifier scheme, all names up to length 2 (quick) / 3 (thorough) over the class alphabet
         outf = os.path.join(wd, "mangle.json")
         cfg = os.path.join(wd, "MangleCheck.cfg")
-        open(cfg, "w").write(open(os.path.join(common.SPEC, "MangleCheck.cfg")).read().replace("MaxLen = 2", "MaxLen = %d" % (2 if tier == "quick" else 3)))
+        open(cfg, "w").write(open(os.path.join(common.SPEC, "MangleCheck.cfg")).read())
         mc = tlc_ok(tlc("Mangle", cfg=cfg, env={"OUTFILE": outf}, workers=4, timeout=3000, xmx="8g"), "MangleCheck")
         rep = read_ndjson(outf)[0]
+        if tier != "quick":
+            # names up to length 3 over the three classes that interact at the separator (letter, escape letter, underscore)
+            open(cfg, "w").write(open(os.path.join(common.SPEC, "MangleCheck.cfg")).read().replace("MaxLen = 2", "MaxLen = 3\nCONSTANT Alphabet <- AlphabetSmall"))
+            mc3 = tlc_ok(tlc("Mangle", cfg=cfg, env={"OUTFILE": outf}, workers=4, timeout=3000, xmx="8g"), "MangleCheck length 3")
+            rep3 = read_ndjson(outf)[0]
+            rep["nonboundary"] += rep3["nonboundary"]
+            rep["otherexample"] = rep["otherexample"] or rep3["otherexample"]
+            rep["pairs"] += rep3["pairs"]
         # 2. identifiers of the names used below, from the specification
         names = [("env", "f"), ("env", "f_g"), ("env", "f__g"), ("a_", "b"), ("a", "_b"), ("m0", "Xx"), ("m0", "x$y"), ("m_0", "x.y-z")]
         inf, idf = os.path.join(wd, "req.ndjson"), os.path.join(wd, "idents.ndjson")
